@@ -141,8 +141,9 @@ def pattern_family_spec(draw, max_patterns=3):
         src = [dict(draw(node_strategy()), rep=True)]
         tgt = [dict(draw(node_strategy()), rep=True)]
     elif fam == 'assigning':
-        k = draw(st.integers(0, 3))
+        k = draw(st.sampled_from([0, 1, 2, 2, 3]))
         m = draw(st.integers(0, 1))
+        rep = draw(st.sampled_from([False, False, True]))
         src = [{'min': k, 'rep': rep} for _ in range(draw(st.integers(1, 3)))]
         tgt = [{'min': m, 'rep': rep} for _ in range(draw(st.integers(1, 3)))]
     elif fam == 'partitioning':
